@@ -7,7 +7,7 @@ use std::cell::{Cell, RefCell};
 
 /// Debugger command language: `Command::try_from` on one line, and the whole sequence of
 /// commands / error reports that `Command::read_from` yields from (argument, stdin).
-pub use crate::debugger::{verif_parse_line, verif_read_all};
+pub use crate::debugger::{verif_classify, verif_parse_line, verif_read_all};
 
 /// Payload of the unwind that replaces `std::process::exit(code)` while armed.
 pub struct VerifExit(pub i32);
